@@ -332,6 +332,22 @@ void target_run(Tape &t)
 		}
 		VF_CHECK(close_notifies == 1, "%s: %u close_notify alerts from %s", desc.c_str(), close_notifies, d ? "server" : "client");
 	}
+	// the same contexts serve a second connection after the orderly close (what servers and reconnecting clients do)
+	if (pairing == 0 && t.u8() % 4 == 0) {
+		VF_CHECK(bc->reset() && bs->reset(), "%s: reset of the contexts after an orderly close failed (errors %d/%d)", desc.c_str(), bc->error(), bs->error());
+		Session S2(cl.get(), sv.get());
+		S2.wire_in_pol[0] = S.wire_in_pol[0]; S2.wire_in_pol[1] = S.wire_in_pol[1];
+		S2.script[0].push_back(Item{ IT_WRITE, 11, true });
+		S2.script[1].push_back(Item{ IT_WRITE, 13, true });
+		S2.script[0].push_back(Item{ IT_WAIT_PEER_IDLE, 0, true });
+		S2.script[0].push_back(Item{ IT_CLOSE, 0, true });
+		S2.script[1].push_back(Item{ IT_FLUSH, 0, true });
+		bool q2 = S2.run(3000000);
+		VF_CHECK(q2 && S2.established && S2.recvd[0] == 11 && S2.recvd[1] == 13 && cl->closed() && sv->closed() && cl->error() == 0 && sv->error() == 0,
+			"%s: second connection on the same contexts (after reset): established %d, delivered %zu/11 and %zu/13, closed %d/%d, errors %d/%d", desc.c_str(),
+			(int)S2.established, S2.recvd[0], S2.recvd[1], (int)cl->closed(), (int)sv->closed(), cl->error(), sv->error());
+		stats.cls("context-reused-for-a-second-connection");
+	}
 	bool nontriv = S.sent[0] > 0 && S.sent[1] > 0 && S.cuts_inside_record > 0;
 	stats.cls(pairing == 0 ? "pairing:bear-bear" : pairing == 1 ? "pairing:bearclient-openssl" : "pairing:openssl-bearserver");
 	stats.cls(std::string("version:") + ver_name(version));
